@@ -693,6 +693,31 @@ class NPG:
     absolute = abs
 
     @staticmethod
+    def hypot(a, b):
+        return NPG.sqrt(a * a + b * b)
+
+    @staticmethod
+    def round(x, decimals=0, out=None):
+        # absolute quantisation: uninterpreted; the dimension calculus rejects it on dimensioned quantities
+        return _un(lambda t: uf(f"round{int(decimals)}", t))(x)
+
+    around = round
+
+    @staticmethod
+    def square(x):
+        return x * x
+
+    @staticmethod
+    def maximum(a, b):
+        f = lambda x, y: z3.If(asreal(x) >= asreal(y), asreal(x), asreal(y))
+        return a._bin(b, f) if isinstance(a, G) else b._bin(a, f, True)
+
+    @staticmethod
+    def minimum(a, b):
+        f = lambda x, y: z3.If(asreal(x) <= asreal(y), asreal(x), asreal(y))
+        return a._bin(b, f) if isinstance(a, G) else b._bin(a, f, True)
+
+    @staticmethod
     def errstate(**kw):
         return np.errstate(**kw)
 
@@ -851,9 +876,12 @@ class NPG:
 
     @staticmethod
     def where(c, a, b):
-        if not isinstance(c, G):
-            raise Unsupported("np.where constant condition")
-        ga = c._bin(a, lambda cc, x: (cc, x))
+        if not isinstance(c, G) or c.tshape != ():
+            raise Unsupported("np.where condition")
+        ga = a if isinstance(a, G) else (c.astype(float) * 0 + a)
+        gb = b if isinstance(b, G) else (c.astype(float) * 0 + b)
+        cond = c if ga.tshape == () else c.reshape((-1,) + (1,) * len(ga.tshape))
+        x = ga._bin(gb, lambda u, v: (u, v))
         raise Unsupported("np.where")
 
     class linalg:
